@@ -172,7 +172,12 @@ func TestC05(t *testing.T) {
 	rapid.Check(t, func(rt *rapid.T) {
 		prog := gogen.Generate(rt, gogen.FlowProfile(off))
 		files := map[string]string{"main.go": prog.Main, "prelude.go": gogen.AnalysedPrelude}
-		baseYAML := core.TaintOpts{}.YAML()
+		// the taint problem itself may ask for implicit flows to be failures: the laws hold for every problem
+		implicit := gogen.Uniform(rt, 3, "fail-on-implicit-flow") == 0
+		baseYAML := core.TaintOpts{ImplicitFail: implicit}.YAML()
+		if implicit {
+			rec.Count("programs_with_fail_on_implicit_flow", 1)
+		}
 		base, over, err := worker.Taint(files, baseYAML, analysisBudget())
 		if err != nil || over || base.Panic != "" || base.Err != nil {
 			rec.Count("baseline_inconclusive", 1)
@@ -230,12 +235,16 @@ func TestC05(t *testing.T) {
 }
 
 func c05Files(files map[string]string, variantYAML string, o optVector, base map[core.Pair]bool) map[string]string {
+	return c05FilesBase(files, variantYAML, core.TaintOpts{ImplicitFail: strings.Contains(variantYAML, "fail-on-implicit-flow: true")}.YAML(), o, base)
+}
+
+func c05FilesBase(files map[string]string, variantYAML, baseYAML string, o optVector, base map[core.Pair]bool) map[string]string {
 	out := map[string]string{}
 	for k, v := range files {
 		out[k] = v
 	}
 	out["variant-config.yaml"] = variantYAML
-	out["baseline-config.yaml"] = core.TaintOpts{}.YAML()
+	out["baseline-config.yaml"] = baseYAML
 	out["vector.txt"] = fmt.Sprintf("%d\n%s\n", o.MaxAlarms, o.String())
 	return out
 }
